@@ -449,6 +449,89 @@ fn meta_case<T: Payload, X: MetaVal>(mode: u8) -> Result<(), String> {
     })
 }
 
+// ---- a user-defined pointer metadata for an UNSIZED value: "rows" of u32 whose length is a property of the
+// row TYPE (per-type metadata), with no per-value metadata at all; two thin representations
+pub struct Columns(usize);
+pub struct RowThinElem;
+pub struct RowThinUnit;
+impl PtrMeta<[u32], Columns> for RowThinElem {
+    type PtrMetadata = ();
+    type Thin = u32;
+    fn to_thin(_: &'static Columns, fat: *const [u32]) -> *const u32 {
+        fat as *const u32
+    }
+    fn from_thin(c: &'static Columns, thin: *const u32, _: ()) -> *const [u32] {
+        std::ptr::slice_from_raw_parts(thin, c.0)
+    }
+}
+impl AllocMeta<[u32], Columns> for RowThinElem {
+    fn layout(c: &'static Columns, _: ()) -> Option<std::alloc::Layout> {
+        std::alloc::Layout::array::<u32>(c.0).ok()
+    }
+}
+impl PtrMeta<[u32], Columns> for RowThinUnit {
+    type PtrMetadata = ();
+    type Thin = ();
+    fn to_thin(_: &'static Columns, fat: *const [u32]) -> *const () {
+        fat as *const ()
+    }
+    fn from_thin(c: &'static Columns, thin: *const (), _: ()) -> *const [u32] {
+        std::ptr::slice_from_raw_parts(thin as *const u32, c.0)
+    }
+}
+impl AllocMeta<[u32], Columns> for RowThinUnit {
+    fn layout(c: &'static Columns, _: ()) -> Option<std::alloc::Layout> {
+        std::alloc::Layout::array::<u32>(c.0).ok()
+    }
+}
+pub struct RowT<const N: usize>;
+impl<const N: usize> TypeMeta for RowT<N> {
+    type TypeMetadata = Columns;
+    const TYPE_METADATA: &'static Columns = &Columns(N);
+}
+
+/// stage 0: completed row (then reclaimed per `mode`); stage 1: builder abandoned before completion
+fn row_case<P: AllocMeta<[u32], Columns> + PtrMeta<[u32], Columns, PtrMetadata = ()> + 'static, const N: usize>(mode: u8, stage: u8) -> Result<(), String>
+where
+    P::Thin: 'static,
+{
+    in_window(|| {
+        let mut arena = new_arena();
+        if stage == 1 {
+            let b = talloc::subject(|| unsafe { GcBuilder::<[u32], Columns, P>::new_with_type_and_ptr_meta::<RowT<N>>(()) });
+            drop(b);
+            drop(arena);
+            return Ok(());
+        }
+        let v = arena.mutate_root(|mc, root| -> Result<Val, String> {
+            let g = talloc::subject(|| unsafe {
+                let mut b = GcBuilder::<[u32], Columns, P>::new_with_type_and_ptr_meta::<RowT<N>>(());
+                let p = b.as_ptr();
+                if p.len() != N {
+                    return Err(format!("builder pointer has length {}, the row type says {N}", p.len()));
+                }
+                for i in 0..N {
+                    (p as *mut u32).add(i).write(0x5000_0000 + i as u32);
+                }
+                Ok(b.assume_init(mc))
+            })?;
+            root.keep.push(Gc::erase(g));
+            if g.len() != N || g.iter().enumerate().any(|(i, x)| *x != 0x5000_0000 + i as u32) {
+                return Err("row reads differently from what was written".into());
+            }
+            let addr = Gc::as_ptr(g) as *const () as usize;
+            let thin = Gc::as_thin(g);
+            let fat = Gc::as_fat(thin);
+            if fat.len() != N || Gc::as_ptr(fat) as *const () as usize != addr {
+                return Err("thin round trip of a row lost address or length".into());
+            }
+            Ok(Val { addr, size: 4 * N, align: 4, id: 1 })
+        })?;
+        check_layout(&v)?;
+        life_cycle(arena, v, mode, &[])
+    })
+}
+
 // keep the unit type meta referenced (plain allocations use it)
 #[allow(dead_code)]
 fn _unit() -> &'static () {
@@ -519,6 +602,18 @@ pub fn cases(thorough: bool) -> Vec<Case> {
     meta_t!(A1<0>);
     meta_t!(A32<33>);
     meta_t!(A4096<1>);
+    macro_rules! rows {
+        ($($n:literal),*) => {$(
+            for stage in 0..2u8 {
+                for m in modes { let m = *m;
+                    if stage == 1 && m != 0 { continue; }
+                    v.push((format!("row/thin_elem/n{}/mode{}/stage{}", $n, m, stage), Box::new(move || row_case::<RowThinElem, $n>(m, stage))));
+                    v.push((format!("row/thin_unit/n{}/mode{}/stage{}", $n, m, stage), Box::new(move || row_case::<RowThinUnit, $n>(m, stage))));
+                }
+            }
+        )*};
+    }
+    rows!(0, 1, 3, 40, 1000);
     v
 }
 
@@ -568,7 +663,7 @@ pub fn run(thorough: bool, only: Option<&str>) -> GridOut {
     GridOut {
         evaluations: n,
         nontrivial,
-        rule: "full grid: sized payloads repr(align(A)) [u8; L] for L in {0,1,2,3,4,7,8,9,15,16,17,24,31,32,33,64,100} x A in {1,2,4,8,16,32,64,128,1024,4096}; slices / header+slice over 10 element and header layouts (incl. zero-sized and over-aligned) x lengths; str lengths; 6 per-value metadata types (incl. over-aligned) x 5 payload layouts with per-type metadata; each x reclamation mode (collected, arena dropped asleep, arena dropped mid-sweep). Non-trivial = cases with a non-zero-sized value".into(),
+        rule: "full grid: sized payloads repr(align(A)) [u8; L] for L in {0,1,2,3,4,7,8,9,15,16,17,24,31,32,33,64,100} x A in {1,2,4,8,16,32,64,128,1024,4096}; slices / header+slice over 10 element and header layouts (incl. zero-sized and over-aligned) x lengths; str lengths; 6 per-value metadata types (incl. over-aligned) x 5 payload layouts with per-type metadata; a user-defined pointer metadata for an unsized value (u32 rows of width 0 / 1 / 3 / 40 / 1000 taken from per-type metadata, no per-value metadata, two thin representations; completed and abandoned); each x reclamation mode (collected, arena dropped asleep, arena dropped mid-sweep). Non-trivial = cases with a non-zero-sized value".into(),
         samples: names.iter().step_by((names.len() / 6).max(1)).take(6).map(|s| J::Str(s.clone())).collect(),
         violations: viol.iter().map(|(c, e)| J::obj().with("case", c.as_str()).with("message", e.as_str())).collect(),
         extra: J::obj().with("exhaustive", only.is_none()),
